@@ -68,6 +68,9 @@ def C07(t0):
     _warm()
     from . import wiring
     jobs = [(f'{b} elligator', curve.check_elligator, (b,)) for b in ('min', 'ark')] + [(f'{b} hash_to_curve wiring', wiring.check_hash_to_curve, (b,)) for b in ('min', 'ark')]
+    # hash_to_curve adds two mapped points - possibly the same one (r1 = +-r2): the addition it uses must be the complete law
+    from . import group
+    jobs += [('min group law (hash_to_curve adds two images)', group.check_min_group_law, ()), ('ark operator forms (hash_to_curve adds two images)', group.sweep_operator_forms, ('ark', ['src/ark_curve/ops/projective.rs']))]
     jobs += S_FULL()
     obs = par.run_groups(_fl(jobs))
     return finish('C07', obs, t0, level='proof',
@@ -96,6 +99,10 @@ def C17(t0):
     from . import consts
     _warm()
     jobs = [(f'{b} field constants', consts.check_field_constants, (b,)) for b in ('ark', 'min')] + [(f'{b} curve constants', consts.check_curve_constants, (b,)) for b in ('ark', 'min')]
+    # the constants of the 32-bit wrappers are built by the const fn from_montgomery_limbs (64-bit literals split into 32-bit limbs): the
+    # constant evaluator uses its contract, so the function itself is decided here on all limb values
+    from . import fields
+    jobs += [(f'min {F} limb-level wrapper functions (from_montgomery_limbs builds the 32-bit constants)', fields.check_w_u32, (F,)) for F in ('Fq', 'Fr', 'Fp')]
     obs = par.run_groups(jobs)
     return finish('C17', obs, t0, level='proof',
         functions=['every pub const of fields/{fq,fr,fp}.rs, the wrapper constants (u32 and u64), the PrimeField/Field/FftField associated constants of fields/*/arkworks.rs',
@@ -233,7 +240,8 @@ def C16(t0):
     _warm()
     jobs = [('bls12_377 configuration constants', consts.check_bls_config, ()), ('ark Fp field constants', consts.check_field_constants, ('ark',)),
             ('ark Fp integers/limbs/bytes/flags (point (de)serialisation goes through these)', fields.check_w_ark, ('Fp',)), ('ark Fp checked parsing', fields.check_bytes_checked, ('ark', 'Fp')),
-            ('ark Fp operator forms', fields.check_field_ops, ('ark', 'Fp')), ('ark Fp sums/products/methods', fields.check_field_iter_and_methods, ('ark', 'Fp')), ('ark Fp byte reduction', fields.check_mod_order, ('ark', 'Fp'))]
+            ('ark Fp operator forms', fields.check_field_ops, ('ark', 'Fp')), ('ark Fp sums/products/methods', fields.check_field_iter_and_methods, ('ark', 'Fp')), ('ark Fp byte reduction', fields.check_mod_order, ('ark', 'Fp')),
+            ('ark Fp ordering and hashing (ark-ec picks the sign flag of a compressed point by comparing y with -y)', fields.check_ord_hash, ('ark', 'Fp'))]
     obs = par.run_groups(jobs)
     return finish('C16', obs, t0, level='proof',
         functions=['every constant of ark_curve/bls12_377.rs (Fp2/Fp6/Fp12 non-residues and Frobenius coefficient tables, G1/G2 curve coefficients, generators, cofactors and their inverses, X, X_IS_NEGATIVE, TWIST_TYPE)',
@@ -248,10 +256,13 @@ def C13(t0):
     _warm()
     jobs = [(f'honest synthesis: {g}', r1cs.check_honest_gadgets, (g,)) for g in ('isqrt', 'sign gadgets', 'compress_to_field', 'decompress_from_field', 'elligator_map', 'is_eq')]
     jobs += [('lazy forcing', r1cs.check_lazy_forcing, ())] + [(f'ElementVar op #{i} variant {v}', r1cs.check_r1cs_ops, ((i, v),)) for i in range(10) for v in (0, 1)] + S_ZERO()[:1]
+    from . import r1cs2
+    jobs += [('equality enforcement, selection, constants, zero, inner negate/double', r1cs2.check_r1cs_semantics, ())]
     obs = par.run_groups(_fl(jobs, ark_only=True))
     return finish('C13', obs, t0, level='proof',
         functions=['r1cs/fqvar_ext.rs: isqrt, is_nonnegative, is_negative, abs', 'r1cs/inner.rs: compress_to_field, decompress_from_field, elligator_map, is_eq', 'r1cs/lazy.rs: element(), encoding() in all orders',
-                   'r1cs/ops.rs + element.rs: Add/Sub/AddAssign/SubAssign forms, double_in_place, negate (incl. cached encodings)'],
+                   'r1cs/ops.rs + element.rs: Add/Sub/AddAssign/SubAssign forms, double_in_place, negate (incl. cached encodings)',
+                   'inner + outer ElementVar: conditional_enforce_equal / conditional_enforce_not_equal / is_eq / conditionally_select / constant / zero; inner negate / double_in_place'],
         bounds=['all gadget inputs symbolic; lazy forcing: all sequences of length <= 3 (4 in thorough) from both initial states; operator forms with and without a previously forced encoding'],
         trusted=[T_RUSTC, 'ark-r1cs-std gadget methods (FpVar arithmetic, inverse, is_eq, select, to_bits_le, Boolean logic, AffineVar allocation and addition) modelled by their documented contracts; satisfaction of the concrete arkworks constraint system is not re-derived',
                  'contract S (C09) for the out-of-circuit hint', 'allocation-mode matrix (constant/input) and scalar multiplication gadgets are outside the claim'],
@@ -261,9 +272,29 @@ def C14(t0):
     from . import r1cs
     _warm()
     jobs = [('isqrt with adversarial hints', r1cs.check_adversarial_isqrt, ()), ('decompress_from_field with adversarial hints', r1cs.check_adversarial_decode, ()), ('witness allocation with adversarial coordinates', r1cs.check_adversarial_alloc, ())]
+    from . import r1cs2
+    jobs += [('every witness-allocation impl with adversarial coordinates', r1cs2.check_adversarial_allocs, ()), ('laziness cannot bypass validation', r1cs2.check_validation_forced, ())]
     obs = par.run_groups(_fl(jobs, ark_only=True))
     return finish('C14', obs, t0, level='proof',
-        functions=['FqVarExtension::isqrt (free flag and root witnesses)', 'inner::ElementVar::decompress_from_field', 'AllocVar<Element, Fq> for inner::ElementVar (witness mode)'],
+        functions=['FqVarExtension::isqrt (free flag and root witnesses)', 'inner::ElementVar::decompress_from_field', 'AllocVar<Element, Fq> and AllocVar<AffinePoint, Fq> for the inner and the outer ElementVar (witness mode)',
+                   'every function of r1cs/element.rs and r1cs/ops.rs on operands allocated from a bare field element: the full in-circuit decoding occurs once per undecoded operand (accessors that hand the encoding back excepted)'],
         bounds=['all gadget inputs and all hint values symbolic (free witnesses); the Boolean hint is enumerated'],
         trusted=[T_RUSTC, 'ark-r1cs-std gadget contracts (as C13)', 'zeta is a non-square, F_q is a field (no nilpotents); uniqueness of the sign-normalised square root', 'soundness of the arkworks constraint system for the modelled gadget methods'],
         assumptions=['partial claim (DESIGN §3 C14): the enforced facts of each path imply the native contract; hints reach the output only through constrained variables'])
+
+
+def C15(t0):
+    from . import shape
+    _warm()
+    jobs = [('shape traces of every r1cs gadget function (proving paths + setup mode)', shape.check_shapes, ()), ('public-input clause', shape.check_public_input, ()),
+            ('pinned Groth16 keys (native ground oracle)', shape.check_groth16_native, ())]
+    obs = par.run_groups(jobs)
+    return finish('C15', obs, t0, level='bounded',
+        functions=['every function of src/ark_curve/r1cs/{element,inner,fqvar_ext,ops,lazy}.rs (enumerated from the MIR; 127 scenarios: operand states element/encoding, allocation modes, Boolean operands)',
+                   'AllocVar<Element, Fq>::new_variable in Input mode; ToConstraintField<Fq> for Element', 'tests/groth16_gadgets.rs against tests/test_vectors (native run, outside the solver claim)'],
+        bounds=['all operand values symbolic and opaque; every value-dependent branch of the gadget code forks and both arms are compared; setup mode = values absent (`value()` fails on variables, arkworks value closures not evaluated; the caller hands over a dummy value because the crate evaluates the caller closure eagerly)',
+                'compositions (the seven test circuits) follow from the per-function result because the circuits themselves contain no value-dependent control flow - this step is argued, not decided',
+                'clause 3 (every witness / every other public input under the pinned keys) is NOT decided: the 11 Groth16 tests of the repository are run natively (10 random cases per circuit)'],
+        trusted=[T_RUSTC, 'ark-r1cs-std gadgets are value-oblivious: the variables and constraints they emit depend only on the sequence of calls, the kinds of the operands (constant / variable) and the values of constants',
+                 'ark-groth16, ark-relations for the native run'],
+        assumptions=['partial claim: clauses 1 and 2 of C15 decided symbolically over all inputs; clause 3 exercised natively only'])
